@@ -1,6 +1,6 @@
 (* C05 (core): the entity table is a last-writer-wins function of creation / update events.
    Stated on decoded events; the byte level is connected through the packet layouts and C03. *)
-From RU Require Import Base Types Defs World.
+From RU Require Import Base Types Defs BitReader World TypesProofs.
 From Coq Require Import Lia.
 
 (* association-list facts (Python dict semantics) *)
@@ -152,4 +152,46 @@ Proof.
   destruct e as [id ty kvs|id k v]; cbn [spec_step]; intros Hne;
   (destruct (Z.eqb i id) eqn:E; [apply Z.eqb_eq in E; congruence|reflexivity]).
 Qed.
+
+(* ---- byte level: what a property-update packet does IS the update event ---- *)
+Definition enc_update (id pid : N) (val : bytes) : bytes :=
+  le_encode 4 id ++ le_encode 4 pid ++ le_encode 4 (N.of_nat (length val)) ++ val.
+
+Section Lift.
+Variable St : setup.
+Theorem update_packet_is_event w id pid val e m p v rest :
+  id < 2 ^ 32 -> pid < 2 ^ 32 -> N.of_nat (length val) < 2 ^ 32 ->
+  zassoc_get (Z.of_N id) (w_entities w) = Some e -> assoc_get (en_type e) (s_models St) = Some m ->
+  nthN (e_client m) pid = Some p -> decode 1 (p_type p) val = Ok (v, rest) ->
+  ids_ok w ->
+  snd (step_class St w EntityProperty (enc_update id pid val)) = None /\
+  w_entities (fst (step_class St w EntityProperty (enc_update id pid val))) =
+  w_entities (conc_step (fun _ => []) w (EvUpdate (Z.of_N id) (p_name p) v)).
+Proof.
+  intros Hid Hpid Hlen He Hm Hp Hd Hok. unfold enc_update. cbn [step_class conc_step].
+  rewrite (get_u_app 4) by (change (256 ^ N.of_nat 4) with (2 ^ 32); exact Hid). cbn [bind].
+  rewrite (get_u_app 4) by (change (256 ^ N.of_nat 4) with (2 ^ 32); exact Hpid). cbn [bind].
+  unfold binstream.
+  rewrite (get_u_app 4) by (change (256 ^ N.of_nat 4) with (2 ^ 32); exact Hlen). cbn [bind].
+  rewrite read_uptoN_all. cbn [bind].
+  unfold lookup_entity. rewrite He. cbn [bind]. unfold model_of. rewrite Hm. cbn [bind]. rewrite Hp, Hd. cbn [bind].
+  cbn [atomic fst snd]. split; reflexivity.
+Qed.
+
+(* ... and a packet for an unknown entity changes nothing *)
+Theorem update_packet_unknown_entity w id pid val :
+  id < 2 ^ 32 -> pid < 2 ^ 32 -> N.of_nat (length val) < 2 ^ 32 ->
+  zassoc_get (Z.of_N id) (w_entities w) = None ->
+  step_class St w EntityProperty (enc_update id pid val) = (w, Some EKey).
+Proof.
+  intros Hid Hpid Hlen He. unfold enc_update. cbn [step_class].
+  rewrite (get_u_app 4) by (change (256 ^ N.of_nat 4) with (2 ^ 32); exact Hid). cbn [bind].
+  rewrite (get_u_app 4) by (change (256 ^ N.of_nat 4) with (2 ^ 32); exact Hpid). cbn [bind].
+  unfold binstream.
+  rewrite (get_u_app 4) by (change (256 ^ N.of_nat 4) with (2 ^ 32); exact Hlen). cbn [bind].
+  rewrite read_uptoN_all. cbn [bind].
+  unfold lookup_entity. rewrite He. reflexivity.
+Qed.
+End Lift.
 Print Assumptions world_refines_spec.
+Print Assumptions update_packet_is_event.
